@@ -441,6 +441,27 @@ func judgeJoin(c *Case, res *execResult, o *vkit.Outcome) {
 			return
 		}
 	}
+	if c.Negate {
+		o.Class("negate")
+	}
+	if strings.Contains(c.Field, ".") {
+		o.Class("nested-field")
+	}
+	for _, ls := range lines {
+		for _, l := range ls {
+			switch l.kind {
+			case 'm':
+				o.Class("line:field-missing")
+			case 'v':
+				o.Class("line:non-string-scalar")
+			case 'c':
+				o.Class("line:object-or-array")
+			}
+		}
+	}
+	if len(c.Templates) > 1 {
+		o.Class("several-templates")
+	}
 	classify(c, o, maxRun, timeoutCuts, joinedRuns, limited, res)
 }
 
